@@ -361,6 +361,45 @@ def _live_edit_history(net, T, d, rec, rng):
         judge()
 
 
+def _inplace_container_history(net, T, rec, rng):
+    """objects built through the plain constructors, then a container attribute of ONE of them is filled in place
+    (tx_in.witness.append, txs_out.append): every other live or later-parsed object must be unaffected"""
+    H = _H(net)
+    h = [bytes(rng.randrange(1, 256) for _ in range(32)) for _ in range(4)]
+    item = bytes(rng.randrange(256) for _ in range(rng.choice([1, 33, 72])))
+    da = {"version": 1, "lock_time": 0, "ins": [{"prev": h[0], "index": 0, "script": b"\x51", "sequence": 0xffffffff, "witness": []},
+                                                {"prev": h[1], "index": 1, "script": b"", "sequence": 5, "witness": []}],
+          "outs": [{"value": 5, "script": b"\x51"}]}
+    db = {"version": 2, "lock_time": 7, "ins": [{"prev": h[2], "index": 0, "script": b"\x52", "sequence": 0xfffffffe, "witness": []}],
+          "outs": [{"value": 6, "script": b"\x52"}]}
+    a = T(1, [T.TxIn(h[0], 0, b"\x51"), T.TxIn(h[1], 1, b"", 5)], [T.TxOut(5, b"\x51")])
+    b = T(2, [T.TxIn(h[2], 0, b"\x52", 0xfffffffe)], [T.TxOut(6, b"\x52")], 7)
+    legacy = R.serialize(db)
+    rec.ev("inplace_container_history")
+    rec.case(("inplace", net, item))
+    case = {"kind": "inplace_container", "net": net, "item": item}
+    st, _ = observe(lambda: a.txs_in[0].witness.append(item))
+    if st != "ok":
+        return          # witness not an appendable container: nothing to observe
+    da["ins"][0]["witness"] = [item]
+    for label, obj, want in (("edited", a, da), ("other_live_object", b, db)):
+        st, got = observe(obj.as_bin)
+        if st != "ok" or got != R.serialize(want):
+            rec.violation("tx.inplace_witness_append.%s_bytes_wrong" % label, case, got if st != "ok" else got[:80], R.serialize(want)[:80])
+            return
+        st, w = observe(obj.w_id)
+        if st != "ok" or w != H(R.serialize(want))[::-1].hex():
+            rec.violation("tx.inplace_witness_append.%s_w_id_wrong" % label, case, w, H(R.serialize(want))[::-1].hex())
+            return
+    st, c = observe(T.from_bin, legacy)
+    if st != "ok" or c.as_bin() != legacy or c.w_id() != c.id():
+        rec.violation("tx.inplace_witness_append.later_parsed_legacy_tx_wrong", case, None if st != "ok" else c.as_bin()[:80], legacy[:80])
+        return
+    fresh = T.TxIn(h[3], 0)
+    if list(fresh.witness) != []:
+        rec.violation("tx.inplace_witness_append.new_txin_not_witness_free", case, list(fresh.witness), [])
+
+
 def _rand_unspents(d, rng):
     out = []
     for _ in d["ins"]:
@@ -518,6 +557,8 @@ def run_shard(spec, rec):
             _check_tx(net, nets[net], d, rec, rng, via=via, unspents=u)
             if i % 3 == 0:
                 _live_edit_history(net, nets[net], d, rec, rng)
+            if i % 50 == 7:
+                _inplace_container_history(net, nets[net], rec, rng)
             if i < 40 and len(rec.samples) < 2 and len(R.serialize(d)) < 300 and R.has_witness(d):
                 rec.sample({"class": net, "tx": G.pack(d), "txid": _H(net)(R.serialize(d, False))[::-1].hex(),
                             "wtxid": _H(net)(R.serialize(d))[::-1].hex(), "wire": R.serialize(d)})
